@@ -233,6 +233,7 @@ def gen_case(rng):
         pid=rng.choice([50, 7, 4194303]),
         maps=maps, opt=opt, ropt=ropt,
         rollup=rng.choice(["present", "present", "enoent", "esrch", "esrch_on_read"]),
+        rollup_order=(rng.randrange(1 << 30) if rng.random() < 0.3 else None),
         statm=gen_statm(rng), memtotal_kb=total,
         memtypes=rng.sample(FULL_FIELDS, rng.choice([2, 3, 10])),
         bad_memtype=rng.choice(BAD_MEMTYPES),
@@ -251,9 +252,15 @@ def render_header(start, end, perms, offset, dev, inode, name):
     return line + b"\n"
 
 
-def render_lines(kb, keys):
+def render_lines(kb, keys, order_seed=None):
     out = []
-    for k in ORDER:
+    order = list(ORDER)
+    if order_seed is not None:
+        # another kernel, another order of the same named lines (the order has changed between kernel releases and is no
+        # part of the format): a reader keyed by names must not care
+        import random
+        random.Random(order_seed).shuffle(order)
+    for k in order:
         if k not in keys or k not in kb:
             continue
         v = kb[k]
@@ -291,7 +298,7 @@ def render_rollup(case):
             tot[k] = sum(m["kb"][k] for m in maps)
     head = render_header(min(m["start"] for m in maps), max(m["end"] for m in maps), "---p", 0, [0, 0], 0,
                          "[rollup]")
-    return head + render_lines(tot, keys)
+    return head + render_lines(tot, keys, case.get("rollup_order"))
 
 
 def render_meminfo(total):
